@@ -52,6 +52,12 @@ pub open spec fn mc_painter_rest_same(a: &Painter, b: &Painter) -> bool {
     &&& a.writer.hist() == b.writer.hist() && a.merge_conflict_commit_names == b.merge_conflict_commit_names
     &&& (a.line_numbers_data is Some) == (b.line_numbers_data is Some)
 }
+/// C10: no commit name of a conflict region is remembered (the next region, maybe in the next file, may have fewer)
+pub open spec fn mc_names_empty(n: &MergeConflictCommitNames) -> bool { n.ours is None && n.ancestral is None && n.theirs is None }
+impl MergeConflictCommits<Option<String>> {
+    //@ fn src/handlers/merge_conflict.rs MergeConflictCommitNames::new
+    //@| ensures mc_names_empty(&r),  // @C10:new.conflict.names.are.empty
+}
 /// nothing of a conflict region is held
 pub open spec fn mc_empty(m: &MergeConflictLines) -> bool { m.ours@.len() == 0 && m.ancestral@.len() == 0 && m.theirs@.len() == 0 }
 impl MergeConflictCommits<Vec<(String, State)>> {
@@ -127,7 +133,7 @@ pub open spec fn mc_painted(o: &StateMachine, f: &StateMachine, mp: MergeParents
     &&& mc_empty(&f.painter.merge_conflict_lines)
     &&& f.state == State::HunkZero(DiffType::Combined(mp, InMergeConflict::No), None)
     &&& f.painter.minus_lines@ == o.painter.minus_lines@ && f.painter.plus_lines@ == o.painter.plus_lines@
-    &&& f.painter.merge_conflict_commit_names == o.painter.merge_conflict_commit_names
+    &&& mc_names_empty(&f.painter.merge_conflict_commit_names)
     &&& (f.painter.line_numbers_data is Some) == (o.painter.line_numbers_data is Some)
     &&& exists|b1: Seq<char>, b2: Seq<char>| #[trigger] mc_bufs_ok(o, 2, b1, b2)
          && f.painter.writer.hist() == mc_hist(o, 2, b1, b2).push(Ev::Text(mc_bar_text(o.config.merge_conflict_end_symbol@, o.config), true))
@@ -172,6 +178,7 @@ pub open spec fn mc_painted_but_names(o: &StateMachine, f: &StateMachine, mp: Me
     &&& f.state == State::HunkZero(DiffType::Combined(mp, InMergeConflict::No), None)
     &&& f.painter.minus_lines@ == o.painter.minus_lines@ && f.painter.plus_lines@ == o.painter.plus_lines@
     &&& f.painter.output_buffer@.len() == 0
+    &&& mc_names_empty(&f.painter.merge_conflict_commit_names)
 }
 
 
@@ -236,7 +243,7 @@ impl<'a> StateMachine<'a> {
     //@ fn src/handlers/merge_conflict.rs StateMachine::paint_buffered_merge_conflict_lines
     //@| requires mp_known(*merge_parents),
     //@| ensures sm_frame(final(self), old(self)),
-    //@|         r.is_ok() ==> mc_painted(old(self), final(self), *merge_parents),  // @C01:conflict.lines.are.painted.once.per.comparison.then.cleared
+    //@|         r.is_ok() ==> mc_painted(old(self), final(self), *merge_parents),  // @C01,C10:conflict.lines.are.painted.once.per.comparison.then.cleared.and.the.commit.names.forgotten
     //@|         r.is_ok() ==> final(self).painter.output_buffer@.len() == 0,
     //@rewrite <<<for (derived_commit_type, header_style) in &[>>> => <<<for (derived_commit_type, header_style) in it: &[>>>
     //@loop 1| invariant mc_loop_inv(old(self), self, it.index@), it.seq().len() == 2,
